@@ -255,14 +255,37 @@ Definition remove_at (f : fsys) (ns : list name) : option fsys :=
 
 Record cfg := mkCfg {
   fixH : bool;   (* hard-link target resolved against the link's directory (as validated), not the process cwd *)
-  fixC : bool;   (* symbolic link created with the validated (cleaned) target *)
-  fixD : bool;   (* unpack refuses a target directory reached through a symbolic link below the working directory *)
   fixA : bool;   (* resolveWritePath returns the cleaned path it validated *)
-  fixS : bool;   (* hard link to a symbolic link refused *)
-  fixR : bool    (* link entry that would replace the unpack directory itself refused *)
+  fixR : bool;   (* link entry that would replace the unpack directory itself refused *)
+  fixN : bool;   (* ensureDirNoSymlink: directories are created element by element, existing links refused *)
+  fixW : bool    (* removeSymlink: an existing symbolic link is replaced, not written through *)
 }.
-Definition cfg_fixed := mkCfg true true true true true true.
-Definition cfg_prefix := mkCfg false false false false false false.
+Definition cfg_fixed := mkCfg true true true true true.
+Definition cfg_prefix := mkCfg false false false false false.
+
+(* ensureDirNoSymlink(base, target): Lstat each element below [cur]; missing ones are created
+   with os.Mkdir, links and files are refused *)
+Fixpoint mkdir_real (f : fsys) (cur : path) (qs : list name) (m : N) : option fsys :=
+  match qs with
+  | [] => Some f
+  | c :: r =>
+    match lookup f (cur ++ [c]) with
+    | Some NDir => mkdir_real f (cur ++ [c]) r m
+    | None =>
+      match awalk f (cur ++ [c]) false with
+      | WNoEnt p => mkdir_real (new_dir p m f) (cur ++ [c]) r m
+      | _ => None
+      end
+    | _ => None
+    end
+  end.
+
+(* removeSymlink(path): Lstat, os.Remove when it is a link *)
+Definition unlink_if_symlink (f : fsys) (fp : list name) : option fsys :=
+  match lookup f fp with
+  | Some (NSym _ _ _) => remove_at f fp
+  | _ => Some f
+  end.
 
 (* ---------- content/file/utils.go ---------- *)
 
@@ -326,12 +349,8 @@ Inductive entry :=
 Definition entry_name (e : entry) : str :=
   match e with EReg n _ _ => n | EDir n _ => n | EHard n _ => n | ESym n _ => n | EOther n => n end.
 
-Definition sym_node (g : cfg) (tgt : str) : node :=
-  if fixC g then
-    let a := is_abs tgt in
-    let c := clean_str tgt in
-    NSym (render_clean a c) a (Ups (fst c) ++ Nms (snd c))
-  else NSym tgt (is_abs tgt) (comps_of tgt).
+(* links are created with the raw target of the archive *)
+Definition sym_node (tgt : str) : node := NSym tgt (is_abs tgt) (comps_of tgt).
 
 Definition do_symlink (f : fsys) (fp : list name) (n : node) : option fsys :=
   match awalk f fp false with
@@ -356,9 +375,8 @@ Definition do_link (g : cfg) (f : fsys) (cwd : path) (fp pn : list name) (tgt : 
   match old with
   | WFile _ i =>
     match awalk f fp false with WNoEnt q => Some (set_ent q (NFile i) f) | _ => None end
-  | WSym _ d a cs =>
-    if fixS g then None
-    else match awalk f fp false with WNoEnt q => Some (set_ent q (NSym d a cs) f) | _ => None end
+  | WSym _ d a cs =>   (* link(2) does not follow: the same link under a second name *)
+    match awalk f fp false with WNoEnt q => Some (set_ent q (NSym d a cs) f) | _ => None end
   | _ => None
   end.
 
@@ -376,8 +394,13 @@ Definition extract_entry (g : cfg) (pres : bool) (cwd : path) (dp : list name) (
     let fp := dp ++ rel in
     let self := match rel with [] => fixR g | _ => false end in
     match e with
-    | EReg _ c m => chmod_if pres (write_at f (Nms fp) c m) fp m
-    | EDir _ m => chmod_if pres (mkdir_all f (Nms fp) m) fp m
+    | EReg _ c m =>
+      match (if fixW g then unlink_if_symlink f fp else Some f) with
+      | None => None
+      | Some f0 => chmod_if pres (write_at f0 (Nms fp) c m) fp m
+      end
+    | EDir _ m =>
+      chmod_if pres (if fixN g then mkdir_real f dp rel m else mkdir_all f (Nms fp) m) fp m
     | EHard _ tgt =>
       if self then None else
       match ensure_link f dp fp tgt with
@@ -388,7 +411,7 @@ Definition extract_entry (g : cfg) (pres : bool) (cwd : path) (dp : list name) (
       if self then None else
       match ensure_link f dp fp tgt with
       | None => None
-      | Some _ => match tgt with [] => None | _ => do_symlink f fp (sym_node g tgt) end
+      | Some _ => match tgt with [] => None | _ => do_symlink f fp (sym_node tgt) end
       end
     | EOther _ => Some f
     end
@@ -420,18 +443,6 @@ Definition write_path (g : cfg) (wd : path) (title : str) : option (list comp) :
   let cl := clean_abs raw in
   if inside wd cl then Some (if fixA g then Nms cl else raw) else None.
 
-(* fixD (ensureNoSymlinkBelow, after MkdirAll): every component of the target below the
-   working directory is a real directory *)
-Fixpoint all_real (f : fsys) (cur : path) (qs : list name) : bool :=
-  match qs with
-  | [] => true
-  | c :: r =>
-    match lookup f (cur ++ [c]) with
-    | Some NDir => all_real f (cur ++ [c]) r
-    | _ => false
-    end
-  end.
-
 Record store := mkStore { st_fs : fsys; st_names : list str }.
 
 Definition push (g : cfg) (pres : bool) (wd cwd : path) (s : store) (o : pushop) : store * bool :=
@@ -446,26 +457,32 @@ Definition push (g : cfg) (pres : bool) (wd cwd : path) (s : store) (o : pushop)
     let f := st_fs s in
     match o with
     | PBlob _ c =>
-      match mkdir_all f (Nms (clean_abs (removelast raw))) 511 with
+      let dir := clean_abs (removelast raw) in
+      let made := match (if fixN g then strip_prefix wd dir else None) with
+                  | Some rel => mkdir_real f wd rel 511
+                  | None => mkdir_all f (Nms dir) 511
+                  end in
+      match made with
       | None => (s, false)
       | Some f1 =>
-        match write_at f1 raw c 438 with
+        match (if fixW g then unlink_if_symlink f1 (clean_abs raw) else Some f1) with
         | None => (mkStore f1 (st_names s), false)
-        | Some f2 => (mkStore f2 (title :: st_names s), true)
+        | Some f1' =>
+          match write_at f1' raw c 438 with
+          | None => (mkStore f1' (st_names s), false)
+          | Some f2 => (mkStore f2 (title :: st_names s), true)
+          end
         end
       end
     | PDir _ es =>
       let dp := clean_abs raw in
-      match mkdir_all f raw 511 with
+      let made := match (if fixN g then strip_prefix wd dp else None) with
+                  | Some rel => mkdir_real f wd rel 511
+                  | None => mkdir_all f raw 511
+                  end in
+      match made with
       | None => (s, false)
       | Some f1 =>
-        let okd := if fixD g then
-                     match strip_prefix wd dp with
-                     | Some rel => all_real f1 wd rel
-                     | None => false
-                     end
-                   else true in
-        if negb okd then (mkStore f1 (st_names s), false) else
         let '(f2, ok) := extract g pres cwd dp title f1 es in
         (mkStore f2 (if ok then title :: st_names s else st_names s), ok)
       end
